@@ -1809,7 +1809,7 @@ static string runCase(const string& kind, const vector<string>& args)
 	if (kind == "parse") return opParse(args);
 	if (kind == "bddincl") return opBddIncl(args);
 	if (kind == "bddinclall") return opBddInclAll(args);
-	if (kind == "bddh") return opBddHist(args);
+	if (kind == "bddh" || kind == "bddpre") return opBddHist(args);
 	if (kind == "bddtd") return opBddToTd(args);
 	if (kind == "mth" || kind == "mthrc") return opMtHist(args);
 	if (kind == "apisweep") return opApiSweep(args);
